@@ -405,7 +405,7 @@ class Explorer(object):
                 return c
             if e.id in ('len', 'iter', 'str', 'int', 'bool', 'list', 'tuple', 'isinstance', 'range', 'enumerate', 'min', 'max', 'any', 'all', 'type', 'set', 'Set', 'sorted', 'sum', 'Map', 'dict', 'Array', '__regex__', 'reversed', 'Boolean', 'map', 'filter', 'zip', '__keys__', 'typeof'):
                 return ('builtin', e.id)
-            if e.id in getattr(self.port, 'modules', {}) or e.id in ('re', 'os', 'sys', 'math', 'ast', 'JSON', 'Math', 'Object', 'Buffer', 'csv_utils', 'rbql_engine', 'rbql'):
+            if e.id in getattr(self.port, 'modules', {}) or e.id in ('re', 'os', 'sys', 'math', 'ast', 'heapq', 'JSON', 'Math', 'Object', 'Buffer', 'csv_utils', 'rbql_engine', 'rbql'):
                 return ('global', e.id)
             fd_ = self.port.func(self.modname, e.id, required=False) if hasattr(self.port, 'func') else None
             if fd_ is not None and isinstance(fd_, ast.FunctionDef):
@@ -588,6 +588,16 @@ class Explorer(object):
             return r if isinstance(op, ast.In) else not r
         if isinstance(a, (int, float)) and isinstance(b, (int, float)):
             return {ast.Lt: a < b, ast.LtE: a <= b, ast.Gt: a > b, ast.GtE: a >= b}[type(op)]
+        def plain_(v):
+            return (isinstance(v, (int, float, str)) and not isinstance(v, bool)) or (isinstance(v, (tuple, list)) and all(plain_(y) for y in v))
+        if getattr(self.port, 'name', 'py') == 'py' and type(a) is type(b) and isinstance(a, (tuple, list)) and plain_(a) and plain_(b):
+            try:
+                return {ast.Lt: a < b, ast.LtE: a <= b, ast.Gt: a > b, ast.GtE: a >= b}[type(op)]       # lexicographic, as Python compares sequences
+            except TypeError:
+                raise Raised(Abs('TypeError'), node)
+        if isinstance(a, str) and isinstance(b, str) and all(ord(ch) < 0xD800 for ch in a + b):
+            # code-unit order of two texts (the same in both languages below the surrogate range)
+            return {ast.Lt: a < b, ast.LtE: a <= b, ast.Gt: a > b, ast.GtE: a >= b}[type(op)]
         raise Undecided('comparison of {!r} and {!r}'.format(a, b), node)
 
     def binop(self, op, a, b, node):
@@ -635,7 +645,7 @@ class Explorer(object):
         if sup is not _NO_SUPER:
             return sup
         if isinstance(e.func, ast.Attribute):
-            if isinstance(e.func.value, ast.Name) and e.func.value.id not in env and (e.func.value.id in ('JSON', 'Math', 'Object', 'Array', 'Number', 'String', 'Buffer', 're', 'os', 'sys', 'math', 'ast') or e.func.value.id in getattr(self.port, 'modules', {})):
+            if isinstance(e.func.value, ast.Name) and e.func.value.id not in env and (e.func.value.id in ('JSON', 'Math', 'Object', 'Array', 'Number', 'String', 'Buffer', 're', 'os', 'sys', 'math', 'ast', 'heapq') or e.func.value.id in getattr(self.port, 'modules', {})):
                 recv = ('global', e.func.value.id)
             else:
                 recv = self.expr(e.func.value, env)
@@ -646,6 +656,7 @@ class Explorer(object):
             else:
                 args.append(self.expr(a, env))
         kwargs = {k.arg: self.expr(k.value, env) for k in e.keywords if k.arg}
+        self._kw = kwargs
         if self.on_call is not None:
             self.last_kwargs = kwargs          # keyword arguments of the call the hook is asked about
             v = self.on_call(self, e, fname, recv, args)
@@ -695,6 +706,9 @@ class Explorer(object):
             return self.call_fd(fval[1], args, kwargs, outer=fval[2])
         if isinstance(fval, tuple) and fval and fval[0] == 'method':
             return self.method(fval[1], fval[2], args, e)
+        if isinstance(fval, tuple) and len(fval) == 2 and fval[0] == 'global' and '.' in fval[1]:
+            mod_, fn_ = fval[1].rsplit('.', 1)          # a library function held in a variable (`pick = heapq.nlargest if r else heapq.nsmallest`)
+            return self.method(('global', mod_), fn_, args, e)
         if isinstance(fval, tuple) and fval and fval[0] == 'modfunc':
             keep = self.modname
             self.modname = fval[1]
@@ -755,6 +769,12 @@ class Explorer(object):
             return self.expr(lam.body, lenv)
         if isinstance(f, tuple) and f and f[0] == 'closure':
             return self.call_fd(f[1], args, outer=f[2])
+        if isinstance(f, tuple) and f and f[0] == 'method':
+            self._kw = {}
+            return self.method(f[1], f[2], list(args), node)
+        if isinstance(f, tuple) and f and f[0] == 'builtin':
+            self._kw = {}
+            return self.builtin(f[1], list(args), node)
         raise Undecided('call of {!r} is outside the abstract interpreter'.format(f), node)
 
     def builtin(self, name, args, node):
@@ -794,6 +814,10 @@ class Explorer(object):
             seq = list(args[0]) if len(args) == 1 and isinstance(args[0], (list, tuple)) else list(args)
             if seq and all(isinstance(x, (int, float)) and not isinstance(x, bool) for x in seq):
                 return min(seq) if name == 'min' else max(seq)
+        if name == 'sorted' and len(args) == 1 and isinstance(args[0], (list, tuple)) and (getattr(self, '_kw', None) or {}):
+            kw = dict(self._kw)
+            self._kw = {}
+            return self._sorted(list(args[0]), kw, node)
         if name in ('sorted', 'sum') and len(args) == 1 and isinstance(args[0], (list, tuple, set)) and all(isinstance(x, (int, float)) and not isinstance(x, bool) for x in args[0]):
             return sorted(args[0]) if name == 'sorted' else sum(args[0])
         if name == 'sorted' and len(args) == 1 and isinstance(args[0], (list, tuple, set)) and all(isinstance(x, str) for x in args[0]):
@@ -849,6 +873,26 @@ class Explorer(object):
             return [(i, x) for i, x in enumerate(args[0])]
         raise Undecided('builtin {} on {!r}'.format(name, args), node)
 
+    def _sorted(self, seq, kw, node):
+        """sorted(seq, key=f, reverse=r) on keys that are concrete numbers / strings / tuples of those (Python's stable sort)"""
+        if set(kw) - {'key', 'reverse'}:
+            raise Undecided('sorted() keyword {}'.format(sorted(kw)), node)
+        keyf = kw.get('key')
+        keys = [self.apply(keyf, [x], node) if keyf is not None else x for x in seq]
+
+        def plain(k):
+            return (isinstance(k, (int, float, str)) and not isinstance(k, bool)) or (isinstance(k, (tuple, list)) and all(plain(y) for y in k))
+        if not all(plain(k) for k in keys):
+            raise Undecided('sort keys {!r} are not concrete'.format(keys[:3]), node)
+        rev = kw.get('reverse', False)
+        if not isinstance(rev, bool):
+            rev = self.truth(rev, node)
+        try:
+            order = sorted(range(len(seq)), key=lambda i: keys[i], reverse=rev)
+        except TypeError:
+            raise Raised(Abs('TypeError'), node)
+        return [seq[i] for i in order]
+
     def method(self, recv, m, args, node):
         import re as _re
         if isinstance(recv, _re.Pattern):
@@ -863,6 +907,23 @@ class Explorer(object):
             if m in ('span', 'start', 'end', 'group', 'groups') and all(isinstance(a, int) for a in args):
                 return getattr(recv, m)(*args)
             raise Undecided('match method {} is outside the abstract interpreter'.format(m), node)
+        if isinstance(recv, tuple) and len(recv) == 3 and recv[0] == 'regex' and m in ('exec', 'test') and len(args) == 1 and isinstance(args[0], str) and 'g' not in recv[2] and 'y' not in recv[2]:
+            # a JS regex constant (no global / sticky state) applied to a concrete string: evaluated with the translated pattern
+            from . import regexlang as _R
+            try:
+                mo = _re.search(_R.js_to_py(recv[1]), args[0], (_re.IGNORECASE if 'i' in recv[2] else 0) | (_re.MULTILINE if 'm' in recv[2] else 0) | (_re.DOTALL if 's' in recv[2] else 0))
+            except Exception:
+                raise Undecided('regex {} outside the abstract interpreter'.format(m), node)
+            if m == 'test':
+                return mo is not None
+            return None if mo is None else [mo.group(0)] + list(mo.groups())
+        if recv == ('global', 'heapq') and m in ('nsmallest', 'nlargest') and len(args) == 2 and isinstance(args[0], int) and isinstance(args[1], (list, tuple)):
+            # documented as equivalent to sorted(iterable, key=key)[:n] / sorted(iterable, key=key, reverse=True)[:n]
+            kw = dict(getattr(self, '_kw', None) or {})
+            self._kw = {}
+            if m == 'nlargest':
+                kw['reverse'] = True
+            return self._sorted(list(args[1]), kw, node)[:max(args[0], 0)]
         if recv == ('global', 're') and m == 'compile' and args and isinstance(args[0], str) and all(isinstance(a, int) for a in args[1:]):
             return _re.compile(*args)
         if recv == ('global', 're') and m in ('search', 'match', 'split', 'findall') and len(args) == 2 and isinstance(args[0], str) and isinstance(args[1], str):
@@ -900,6 +961,23 @@ class Explorer(object):
                 if all(isinstance(x, (str, int)) and not isinstance(x, bool) for x in recv) and (not args or isinstance(args[0], str)):
                     return (args[0] if args else ',').join(str(x) for x in recv)
                 return Abs('Joined', sep=(args[0] if args else ','), items=tuple(recv))
+            if m == '__getitem__' and len(args) == 1 and isinstance(args[0], int) and not isinstance(args[0], bool) and -len(recv) <= args[0] < len(recv):
+                return recv[args[0]]
+            if m == 'sort' and not args and getattr(self.port, 'name', 'py') == 'py' and (getattr(self, '_kw', None) or {}):
+                kw = dict(self._kw)
+                self._kw = {}
+                recv[:] = self._sorted(list(recv), kw, node)
+                return None
+            if m == 'sort' and len(args) == 1 and getattr(self.port, 'name', 'py') == 'js':
+                import functools
+
+                def cmp2_(a_, b_):
+                    r_ = self.apply(args[0], [a_, b_], node)
+                    if not isinstance(r_, (int, float)) or isinstance(r_, bool):
+                        raise Undecided('comparator result {!r}'.format(r_), node)
+                    return -1 if r_ < 0 else (1 if r_ > 0 else 0)
+                recv[:] = sorted(list(recv), key=functools.cmp_to_key(cmp2_))
+                return recv
             if m == 'sort' and len(args) <= 1 and all(isinstance(x, (int, str)) and not isinstance(x, bool) for x in recv):
                 import functools
                 if args:
@@ -987,6 +1065,10 @@ class Explorer(object):
                 return recv.find(args[0])
             if m == 'includes' and len(args) == 1 and isinstance(args[0], str):
                 return args[0] in recv
+            if m == 'localeCompare' and len(args) == 1 and isinstance(args[0], str):
+                # locale collation (approximation of the default ICU order): letters first by their case-folded form, lower case before upper
+                ka, kb = (recv.casefold(), recv.swapcase()), (args[0].casefold(), args[0].swapcase())
+                return -1 if ka < kb else (1 if ka > kb else 0)
             if m == 'format':
                 if all(isinstance(a, (str, int)) and not isinstance(a, bool) for a in args):
                     try:
@@ -1005,6 +1087,8 @@ class Explorer(object):
                 recv.discard(args[0])
                 return had if m == 'delete' else None
         if isinstance(recv, dict):
+            if m in ('items', 'keys', 'values') and not args and getattr(self.port, 'name', 'py') == 'py':
+                return [(k_, v_) for k_, v_ in recv.items()] if m == 'items' else (list(recv.keys()) if m == 'keys' else list(recv.values()))
             if m == 'get' and 1 <= len(args) <= 2:
                 return recv.get(args[0], args[1] if len(args) == 2 else None)
             if m == 'setdefault' and len(args) == 2:
